@@ -629,7 +629,10 @@ class C06(Check):
                         'phase': frng.choice(PHASES),
                         'exc': frng.choice(EXCS)})
             if frng.random() < 0.15:
-                case['src_fault'] = {'at': frng.randrange(nch + 1),
+                # at == number of chunks: the call that would have reported
+                # the end of the stream fails instead
+                case['src_fault'] = {'at': frng.randrange(
+                    streams.n_chunks(r) + 1),
                                      'exc': frng.choice(SRC_EXCS)}
         return case
 
